@@ -5,6 +5,8 @@ package interp
 // unsafe) and the uninterpreted hash functions.
 
 import (
+	"golang.org/x/crypto/blake2b"
+	"golang.org/x/crypto/sha3"
 	"fmt"
 	"go/token"
 	"go/types"
@@ -66,6 +68,14 @@ func init() {
 	}
 	externals[vtPkg+"Note"] = func(fr *frame, args []value) value {
 		fr.i.ex.assumes[args[0].(string)] = true
+		return nil
+	}
+	externals[vtPkg+"HashAxioms"] = func(fr *frame, args []value) value {
+		fr.i.ex.noHashAxioms = !args[0].(bool)
+		return nil
+	}
+	externals[vtPkg+"ConcreteHashes"] = func(fr *frame, args []value) value {
+		fr.i.ex.concreteHashes = true
 		return nil
 	}
 	externals[vtPkg+"AllowPanic"] = func(fr *frame, args []value) value {
@@ -482,11 +492,14 @@ func hashUF(fr *frame, name string, in []value) value {
 	n := len(in)
 	var app *Term
 	fn := fmt.Sprintf("%s_%d", name, n)
-	if n == 0 {
-		app = mkUF(fn, 256)
-	} else {
+	{
 		var arg *Term
 		allConst := true
+		if n == 0 {
+			// the empty input: a one-bit dummy argument, so that the empty digest takes part in
+			// the collision-freedom instances like every other application
+			arg = mkConst(0, 1)
+		}
 		for _, b := range in {
 			t := toSym(b).t
 			if !t.isConst() {
@@ -498,8 +511,58 @@ func hashUF(fr *frame, name string, in []value) value {
 				arg = &Term{op: "concat", w: arg.w + 8, args: []*Term{arg, t}, size: arg.size + t.size + 1}
 			}
 		}
-		_ = allConst
+		if allConst && fr.i.ex.concreteHashes && (name == "Hb" || name == "Hk") {
+			// the harness asked for real digests of fully concrete inputs
+			raw := make([]byte, n)
+			for i, b := range in {
+				raw[i] = byte(toSym(b).t.k)
+			}
+			var d [32]byte
+			if name == "Hb" {
+				d = blake2b.Sum256(raw)
+			} else {
+				k := sha3.NewLegacyKeccak256()
+				k.Write(raw)
+				copy(d[:], k.Sum(nil))
+			}
+			var dt *Term
+			for i := 0; i < 4; i++ {
+				var w uint64
+				for j := 0; j < 8; j++ {
+					w = w<<8 | uint64(d[8*i+j])
+				}
+				c := mkConst(w, 64)
+				if dt == nil {
+					dt = c
+				} else {
+					dt = &Term{op: "concat", w: dt.w + 64, args: []*Term{dt, c}, size: dt.size + 2}
+				}
+			}
+			fr.i.ex.ufApps[name] = append(fr.i.ex.ufApps[name], ufApp{arg: arg, app: dt, bytes: bytesOf(in)})
+			fr.i.ex.stubs["real "+map[string]string{"Hb": "blake2b-256", "Hk": "keccak-256"}[name]+" digests for fully concrete inputs (harness opt-in)"]++
+			out := make(array, 32)
+			for i := range out {
+				out[i] = d[i]
+			}
+			return out
+		}
 		app = mkUF(fn, 256, arg)
+		// the same input hashed before on this path: reuse the application
+		reused := false
+		for _, prev := range fr.i.ex.ufApps[name] {
+			if prev.arg.w == arg.w && termEqual(prev.arg, arg) {
+				app, reused = prev.app, true
+				break
+			}
+		}
+		if reused {
+			out := make(array, 32)
+			for i := 0; i < 32; i++ {
+				hi := 255 - 8*i
+				out[i] = simplify(sym{mkExtract(app, hi, hi-7), types.Uint8})
+			}
+			return out
+		}
 		// collision freedom on the points queried on this path: H(a) = H(b) => a = b
 		// (an assumption about the environment, recorded in the evidence)
 		ex := fr.i.ex
@@ -507,7 +570,7 @@ func hashUF(fr *frame, name string, in []value) value {
 		// the JAM state trie relies on exactly this)
 		top := func(t *Term) *Term { return mkExtract(t, 255, 40) }
 		prevApps := ex.ufApps[name]
-		if strings.HasPrefix(name, "Hz_") || len(prevApps) > 24 {
+		if strings.HasPrefix(name, "Hz_") || len(prevApps) > 200 || ex.noHashAxioms {
 			// hashes passed in by a harness (zzvt.Hash32) are only ever compared with the
 			// oracle's application of the same symbol; and the instance set is capped
 			prevApps = nil
@@ -519,12 +582,32 @@ func hashUF(fr *frame, name string, in []value) value {
 				ex.addPC(mkNot(mkEq(top(app), top(prev.app))))
 			case sameTerm(prev.arg, arg):
 			default:
-				ex.addPC(mkOr(mkNot(mkEq(top(app), top(prev.app))), mkEq(arg, prev.arg)))
+				// input equality byte by byte: bytes that are syntactically equal drop out,
+				// two different constants settle it
+				same := termTrue
+				cur := bytesOf(in)
+				for i := range cur {
+					if i >= len(prev.bytes) {
+						break
+					}
+					same = mkAnd(same, mkEq(cur[i], prev.bytes[i]))
+					if same.isFalse() {
+						break
+					}
+				}
+				if len(prev.bytes) != len(cur) {
+					same = mkEq(arg, prev.arg)
+				}
+				if same.isFalse() {
+					ex.addPC(mkNot(mkEq(top(app), top(prev.app))))
+				} else {
+					ex.addPC(mkOr(mkNot(mkEq(top(app), top(prev.app))), same))
+				}
 			}
 		}
-		ex.ufApps[name] = append(ex.ufApps[name], ufApp{arg: arg, app: app})
-		if !strings.HasPrefix(name, "Hz_") {
-			ex.stubs["assumption: "+name+" is collision-free (first 27 bytes) on the inputs hashed on a path (<= 25 instances)"]++
+		ex.ufApps[name] = append(ex.ufApps[name], ufApp{arg: arg, app: app, bytes: bytesOf(in)})
+		if !strings.HasPrefix(name, "Hz_") && !ex.noHashAxioms {
+			ex.stubs["assumption: "+name+" is collision-free (first 27 bytes) on the inputs hashed on a path (<= 200 earlier applications)"]++
 		}
 	}
 	out := make(array, 32)
@@ -685,4 +768,12 @@ func decodeLE(t types.Type, buf []value, pos *int) value {
 		return s
 	}
 	panic(engineError{"binary intrinsic: unsupported " + t.String()})
+}
+
+func bytesOf(in []value) []*Term {
+	out := make([]*Term, len(in))
+	for i, b := range in {
+		out[i] = toSym(b).t
+	}
+	return out
 }
